@@ -18,6 +18,9 @@ from eos.eve_obj.effect.dmg_dealer.base import DmgDealerEffect
 from eos.eve_obj.effect.repairs.base import (LocalArmorRepairEffect, LocalShieldRepairEffect,
                                              RemoteArmorRepairEffect, RemoteShieldRepairEffect)
 from eos.eve_obj.type import AbilityData
+from eos.pubsub.message import (EffectsStarted, EffectsStopped, ItemLoaded, ItemUnloaded, StatesActivated,
+                                StatesActivatedLoaded, StatesDeactivated, StatesDeactivatedLoaded)
+from eos.pubsub.subscriber import BaseSubscriber
 
 A = AttrId
 E = EffectId
@@ -140,8 +143,9 @@ class Universe:
         for tid, sp in self.specs.items():
             self._mk(self.a, tid, sp['attrs'], sp)
             if sp['kind'] in ('ship', 'character') or rnd.random() < .75:
-                attrs = {k: (self._jiggle(v) if rnd.random() < .3 else v) for k, v in sp['attrs'].items()
-                         if k in (A.ammo_loaded, A.fighter_ability_launch_bomb_type) or rnd.random() < .9}
+                ids = (A.ammo_loaded, A.fighter_ability_launch_bomb_type)       # type references stay as they are
+                attrs = {k: (self._jiggle(v) if k not in ids and rnd.random() < .3 else v)
+                         for k, v in sp['attrs'].items() if k in ids or rnd.random() < .9}
                 self._mk(self.b, tid, attrs, sp)
 
     def _jiggle(self, v):
@@ -259,6 +263,75 @@ class Universe:
         self.types_absent = [999001, 999002]      # ids no source knows
 
 
+# ------------------------------------------------------------------ message spy (white-box view of the registers)
+class Spy(BaseSubscriber):
+    """Records the messages the stat registers of a fit receive, as `msg` driver lines (facts read off the item at
+    publication time, exactly what the real handlers can see)."""
+
+    def __init__(self, world, fit):
+        self.w = world
+        self.lines = ['hist']
+        fit._subscribe(self, self._handler_map.keys())
+        # the character was added (and loaded) by Fit.__init__ before anybody could listen: replay its messages
+        class M:
+            item = fit.character
+        states = [int(x) for x in State if x <= M.item.state]
+        self._rec(1, M, ['state:%d' % x for x in states])
+        if M.item._is_loaded:
+            self._rec(1, M, ['loaded'])
+            self._rec(1, M, ['stateLoaded:%d' % x for x in states])
+            if M.item._running_effect_ids:
+                self._rec(1, M, ['effect:%s' % ename(e) for e in sorted(M.item._running_effect_ids)])
+
+    def _rec(self, on, msg, points):
+        it = msg.item
+        ta = it._type_attrs
+        self.lines.append('msg %d %d %s P %s A %s T %s K %s' % (
+            on, self.w.spy_id(it), CLS.get(type(it), 'character' if type(it).__name__ == 'Character' else 'autocharge'),
+            ' '.join(points), ' '.join(aname(a) for a in ta), ' '.join(aname(a) for a, v in ta.items() if v),
+            ' '.join('%s=%s' % (ename(e.id), eff_kind(e)) for e in it._type_effects.values())))
+
+    _handler_map = {
+        ItemLoaded: lambda self, m: self._rec(1, m, ['loaded']),
+        ItemUnloaded: lambda self, m: self._rec(0, m, ['loaded']),
+        StatesActivated: lambda self, m: self._rec(1, m, ['state:%d' % s for s in sorted(m.states)]),
+        StatesDeactivated: lambda self, m: self._rec(0, m, ['state:%d' % s for s in sorted(m.states)]),
+        StatesActivatedLoaded: lambda self, m: self._rec(1, m, ['stateLoaded:%d' % s for s in sorted(m.states)]),
+        StatesDeactivatedLoaded: lambda self, m: self._rec(0, m, ['stateLoaded:%d' % s for s in sorted(m.states)]),
+        EffectsStarted: lambda self, m: self._rec(1, m, ['effect:%s' % ename(e) for e in sorted(m.effect_ids)]),
+        EffectsStopped: lambda self, m: self._rec(0, m, ['effect:%s' % ename(e) for e in sorted(m.effect_ids)])}
+
+    def take(self):
+        out, self.lines = self.lines, []
+        return out
+
+
+SET_REGS = (('CpuRegister', 'cpu'), ('PowergridRegister', 'powergrid'), ('CalibrationRegister', 'calibration'),
+            ('DronebayVolumeRegister', 'dronebay'), ('DroneBandwidthRegister', 'drone_bandwidth'),
+            ('TurretSlotRegister', 'turret_slots'), ('LauncherSlotRegister', 'launcher_slots'),
+            ('LaunchedDroneRegister', 'launched_drones'), ('FighterSquadSupportRegister', 'fighter_squads_support'),
+            ('FighterSquadLightRegister', 'fighter_squads_light'), ('FighterSquadHeavyRegister', 'fighter_squads_heavy'))
+
+
+def register_contents(world):
+    """{(register class, effect name or ''): sorted member ids} read from the private containers of fit 0."""
+    st = world.fit.stats
+    out = {}
+    for name, attr in SET_REGS:
+        out[(name, '')] = sorted(world.spy_id(i) for i in getattr(st, attr)._users)
+    dd = getattr(getattr(st, '_StatService__dd_reg'), '_DmgDealerRegister__dmg_dealers')
+    arm = getattr(getattr(st, '_StatService__armor_rep_reg'), '_ArmorRepairerRegister__local_repairers')
+    shl = getattr(getattr(st, '_StatService__shield_rep_reg'), '_ShieldRepairerRegister__local_repairers')
+    for e in world.u.a.effects.values():
+        if eff_kind(e) == 'plain' and e.id != E.online:
+            continue
+        n = ename(e.id)
+        out[('DmgDealerRegister', n)] = sorted(world.spy_id(i) for i, es in dd.items() if e in es)
+        out[('ArmorRepairerRegister', n)] = sorted(world.spy_id(i) for i, x in arm if x is e)
+        out[('ShieldRepairerRegister', n)] = sorted(world.spy_id(i) for i, x in shl if x is e)
+    return out
+
+
 # ------------------------------------------------------------------ world
 class World:
     """Fit 0 is observed; fit 1 carries remote repairers which may target fit 0's ship."""
@@ -274,8 +347,10 @@ class World:
         self.items = {}          # harness id -> item object (kept alive)
         self.ids = {}            # id(object) -> harness id
         self.next = 1
+        self.extra = {}          # id(object) -> id of items the harness did not create (autocharges), for the spy
         self.register(self.fit.character)
         self.register(self.fit2.character)
+        self.spy = Spy(self, self.fit)
         self.ships = []          # every ship ever assigned to fit 0 (possible targets)
         self.log = []
 
@@ -288,6 +363,15 @@ class World:
 
     def hid(self, obj):
         return self.ids.get(id(obj))
+
+    def spy_id(self, obj):
+        h = self.ids.get(id(obj))
+        if h is None:
+            h = self.extra.get(id(obj))
+            if h is None:
+                h = self.extra[id(obj)] = 500000 + len(self.extra)
+                self.items[h] = obj          # keep it alive so id() stays unique
+        return h
 
     # ---- random op generation (mostly valid; `bad` ops are the malformed stream)
     def container(self, fit, name):
@@ -302,7 +386,7 @@ class World:
         """Opening ops of a history: a ship and a few active weapons, repairers, drones, a fighter squad, a rig."""
         u = self.u
         ops = [{'op': 'ship', 'type': rnd.choice(u.by_kind['ship'][:3])}]
-        for cont, n in (('high', 3), ('mid', 1), ('low', 1), ('drone', 2), ('fighter', 1), ('rig', 1)):
+        for cont, n in (('high', 3), ('mid', 1), ('low', 1), ('drone', 2), ('fighter', 2), ('rig', 1)):
             for _ in range(n):
                 tid = rnd.choice(u.by_kind[cont])
                 op = {'op': 'add', 'cont': cont, 'type': tid, 'state': rnd.choice([2, 3, 3, 3, 4]) if cont != 'rig' else None}
@@ -310,7 +394,16 @@ class World:
                     chs = u.charges_for.get(tid) or [None]
                     op.update(how='append', idx=0, charge=rnd.choice(chs))
                 ops.append(op)
+        for k in range(2):       # two remote repairers on the second fit, aimed at the ship (harness ids are deterministic)
+            ops.append({'op': 'add2', 'type': rnd.choice(u.remote_types), 'state': rnd.choice([3, 3, 4]),
+                        'charge': rnd.choice((u.charges_for.get(u.remote_types[0]) or [None]) + [None])})
         return ops
+
+    def aim_all(self):
+        """Op list aiming every remote repairer of the second fit at the current ship."""
+        sh = self.fit.ship
+        return [{'op': 'target', 'item': self.hid(i), 'ship': self.hid(sh)} for i in self.present(self.fit2)
+                if sh is not None and self.hid(i) is not None]
 
     def gen_op(self, rnd):
         u = self.u
@@ -336,21 +429,21 @@ class World:
             it = rnd.choice(pres)
             how = rnd.choice(['remove', 'free']) if isinstance(it, (ModuleHigh, ModuleMid, ModuleLow)) else 'remove'
             return {'op': 'remove', 'item': self.hid(it), 'how': how}
-        if x < .58 and stateful:
+        if x < .56 and stateful:
             return {'op': 'state', 'item': self.hid(rnd.choice(stateful)), 'state': rnd.choice([1, 2, 3, 4])}
-        if x < .68 and pres:
+        if x < .64 and pres:
             it = rnd.choice(stateful if stateful and rnd.random() < .7 else pres)
             effs = sorted(it._type_effects) or [int(E.online)]
             return {'op': 'mode', 'item': self.hid(it), 'effect': rnd.choice(effs), 'mode': int(rnd.choice(list(EffectMode)))}
-        if x < .76 and mods:
+        if x < .71 and mods:
             it = rnd.choice(mods)
             chs = u.charges_for.get(it._type_id) or []
             return {'op': 'charge', 'item': self.hid(it), 'type': rnd.choice(chs + [None] + (u.types_absent[:1] if rnd.random() < .2 else [])) if chs else None}
-        if x < .84:
+        if x < .78:
             return {'op': 'source', 'to': rnd.choice(['A', 'A', 'B', 'B', None])}
-        if x < .88:
+        if x < .81:
             return {'op': 'profile', 'p': rnd_profile(rnd)}
-        if x < .90:
+        if x < .86:
             fs = [i for i in pres if isinstance(i, FighterSquad) and i._is_loaded and i._type.abilities_data]
             if fs:
                 it = rnd.choice(fs)
@@ -358,12 +451,13 @@ class World:
         # second fit: remote repairers
         mods2 = [i for i in self.present(self.fit2)]
         y = rnd.random()
-        if y < .4 or not mods2:
+        if (y < .3 and len(mods2) < 5) or not mods2:
             return {'op': 'add2', 'type': rnd.choice(u.remote_types), 'state': rnd.choice([1, 3, 3, 4]),
                     'charge': rnd.choice((u.charges_for.get(u.remote_types[0]) or [None]) + [None])}
         it = rnd.choice(mods2)
-        if y < .7:
-            tg = rnd.choice(self.ships + [None]) if self.ships else None
+        if y < .75:
+            cur = self.fit.ship
+            tg = cur if cur is not None and rnd.random() < .8 else (rnd.choice(self.ships + [None]) if self.ships else None)
             return {'op': 'target', 'item': self.hid(it), 'ship': self.hid(tg) if tg is not None else None}
         if y < .9:
             return {'op': 'state', 'item': self.hid(it), 'state': rnd.choice([1, 3, 4])}
